@@ -331,18 +331,24 @@ def distribution(cases, obs):
 
 LEVEL_TEXT = ('FileLock is modelled as a small-step machine (one step per gated primitive) over a kernel holder table '
               '(coq/theories/FLock.v).  props/C02.v proves by an inductive invariant (thread-lock accounting TL, FLockInv/FLockTL.v; '
-              'descriptor/holder invariant FD, FLockFD.v), for ALL event lists (steps of any thread, clock advances, crashes), any '
+              'descriptor/holder invariant FD, FLockFD.v; Inv = TL /\\ FD, FLockMutex.v; static contract FLockContract.v; monitors '
+              'FLockMon.v), for ALL event lists (steps of any thread, clock advances, crashes), any '
               'number of processes, objects on one path and threads, any mix of blocking / non-blocking / timed acquire, '
-              'acquire_ctx, with, release, release(force), reentrant or not, and ANY OSError script: '
+              'acquire_ctx, with, release, release(force), __del__, reentrant or not, and ANY fault script (OSError or '
+              'KeyboardInterrupt flavour at the n-th open / flock / unlock / close): '
               'mutex_threads_objects_procs (two threads inside => the same thread), holder_until_release (no event of anybody '
               'else ends a holder\'s tenure: it still owns the thread lock and its descriptor still carries the kernel lock), '
               'contract_static + mutex_for_contract_respecting_programs (the contract "a thread releases only a lock it holds, '
               'threads use objects of their own process" as a decidable predicate cfg_ok on programs; such programs never leave '
               'the contract, so mutual exclusion holds with no hypothesis on the run), mutex_refuted_outside_contract (the '
-              'contract is needed), and monitor_complete (the occupancy monitor Case_C02.ok accepts every trace the model can '
-              'produce within the contract, so it cannot raise a false alarm where implementation and model agree).  Tied to /repo by replaying, inside Coq, the exact schedules on which the real class was just '
+              'contract is needed), monitor_complete (the occupancy monitor Case_C02.ok, incl. its enter/exit consistency clause, '
+              'accepts every trace the model can produce within the contract on crash-free schedules, so it cannot raise a false '
+              'alarm where implementation and model agree) and monitor_sound (model-free: an accepted observed log has no '
+              'kernel/table mismatch and, after every prefix, at most one thread inside, recomputed from the enter/exit events '
+              'alone).  Tied to /repo by replaying, inside Coq, the exact schedules on which the real class was just '
               'run under gated threads (all schedules of 2 threads x 1 round up to a preemption bound, random beyond) and by '
-              'multi-process marker-file runs.')
+              'multi-process marker-file runs; program ops beyond acquire/release: del (drop the last reference), stray release by a '
+              'non-holder (outside the contract: not judged), forkhold (holder forks a child that inherits the descriptor).')
 LEVEL_NOTE = ('trusted: Coq kernel + vm_compute; no axioms (every theorem "Closed under the global context"); kernel flock '
               'semantics = assumption of the model (validated by the shim table and the F-runs, not proved); threading.Lock/RLock '
               'modelled; contract = ghost flag viol never raised (dynamic form) or cfg_ok (static form); inside = ghost list t_cs '
